@@ -85,6 +85,9 @@ func genC11(x *Ctx) *c11Scen {
 			}
 			p := sc.Plains[tp.G(len(sc.Plains))]
 			if handled[p.ID] {
+				// registering the same pattern again panics by contract; the caller recovers and the
+				// container must be exactly as before
+				sc.Ops = append(sc.Ops, AdminOp{Kind: "handle-dup", Plain: p.ID})
 				return
 			}
 			handled[p.ID] = true
